@@ -259,7 +259,7 @@ func (w *World) SeqSort(elem Sort) Sort {
 	r := strings.NewReplacer("$S", string(s), "$E", string(elem), "$X", x)
 	text := r.Replace(seqTemplate)
 	syms := []string{string(s)}
-	for _, f := range []string{"len", "at", "empty", "unit", "cat", "sub", "upd", "mk", "diff", "eq", "zero"} {
+	for _, f := range []string{"len", "at", "empty", "unit", "cat", "sub", "upd", "mkseq", "diff", "eq", "zero"} {
 		syms = append(syms, f+"_"+x)
 	}
 	w.AddDef("seq:"+string(s), syms, text)
@@ -290,7 +290,7 @@ func (w *World) SeqCat(a, b Term) Term {
 }
 func (w *World) SeqSub(s, a, b Term) Term { return App(s.Sort, "sub_"+seqX(s.Sort), s, a, b) }
 func (w *World) SeqUpd(s, i, e Term) Term { return App(s.Sort, "upd_"+seqX(s.Sort), s, i, e) }
-func (w *World) SeqMk(seq Sort, n Term) Term { return App(seq, "mk_"+seqX(seq), n) }
+func (w *World) SeqMk(seq Sort, n Term) Term { return App(seq, "mkseq_"+seqX(seq), n) }
 func (w *World) SeqEq(a, b Term) Term {
 	if a.S == b.S {
 		return True
@@ -337,7 +337,7 @@ const seqTemplate = `(declare-sort $S 0)
 (declare-fun cat_$X ($S $S) $S)
 (declare-fun sub_$X ($S Int Int) $S)
 (declare-fun upd_$X ($S Int $E) $S)
-(declare-fun mk_$X (Int) $S)
+(declare-fun mkseq_$X (Int) $S)
 (declare-fun zero_$X () $E)
 (declare-fun diff_$X ($S $S) Int)
 (declare-fun eq_$X ($S $S) Bool)
@@ -351,8 +351,8 @@ const seqTemplate = `(declare-sort $S 0)
 (assert (forall ((s $S) (a Int) (b Int) (i Int)) (! (=> (and (<= 0 a) (<= a b) (<= b (len_$X s)) (<= 0 i) (< i (- b a))) (= (at_$X (sub_$X s a b) i) (at_$X s (+ a i)))) :pattern ((at_$X (sub_$X s a b) i)))))
 (assert (forall ((s $S) (i Int) (e $E)) (! (=> (and (<= 0 i) (< i (len_$X s))) (= (len_$X (upd_$X s i e)) (len_$X s))) :pattern ((upd_$X s i e)))))
 (assert (forall ((s $S) (i Int) (e $E) (j Int)) (! (=> (and (<= 0 i) (< i (len_$X s)) (<= 0 j) (< j (len_$X s))) (= (at_$X (upd_$X s i e) j) (ite (= i j) e (at_$X s j)))) :pattern ((at_$X (upd_$X s i e) j)))))
-(assert (forall ((n Int)) (! (=> (>= n 0) (= (len_$X (mk_$X n)) n)) :pattern ((mk_$X n)))))
-(assert (forall ((n Int) (i Int)) (! (=> (and (<= 0 i) (< i n)) (= (at_$X (mk_$X n) i) zero_$X)) :pattern ((at_$X (mk_$X n) i)))))
+(assert (forall ((n Int)) (! (=> (>= n 0) (= (len_$X (mkseq_$X n)) n)) :pattern ((mkseq_$X n)))))
+(assert (forall ((n Int) (i Int)) (! (=> (and (<= 0 i) (< i n)) (= (at_$X (mkseq_$X n) i) zero_$X)) :pattern ((at_$X (mkseq_$X n) i)))))
 (assert (forall ((a $S) (b $S)) (! (= (eq_$X a b) (= a b)) :pattern ((eq_$X a b)))))
 (assert (forall ((a $S) (b $S)) (! (or (= a b) (not (= (len_$X a) (len_$X b))) (and (<= 0 (diff_$X a b)) (< (diff_$X a b) (len_$X a)) (not (= (at_$X a (diff_$X a b)) (at_$X b (diff_$X a b)))))) :pattern ((eq_$X a b)))))
 (assert (forall ((a $S)) (! (= (cat_$X a empty_$X) a) :pattern ((cat_$X a empty_$X)))))
